@@ -581,7 +581,11 @@ def d_error(ctx, rng, ds, paths, kind):
         bias = refmetrics.mean([a - b for a, b in p])
         rmse = math.sqrt(refmetrics.mean([(a - b) ** 2 for a, b in p]))
         compare_series(ctx, "error", "systematic error mean(obs-fcst) input %d" % k, gy, [bias], case)
-        compare_series(ctx, "error", "unsystematic error sqrt(rmse^2-bias^2) input %d" % k, gx, [math.sqrt(max(0.0, rmse ** 2 - bias ** 2))], case, 1e-5, 1e-6)
+        unsys = math.sqrt(max(0.0, rmse ** 2 - bias ** 2))
+        if unsys < 1e-6 * max(1.0, rmse) and len(gx) == 1 and (gx[0] != gx[0] or abs(gx[0]) < 1e-5):
+            ctx.count("series_compared")     # pure cancellation regime (constant error): 0 and NaN are both accepted
+        else:
+            compare_series(ctx, "error", "unsystematic error sqrt(rmse^2-bias^2) input %d" % k, gx, [unsys], case, 1e-5, 1e-6)
     done(ctx, "error", argv, kind, F, 2)
 
 
